@@ -103,4 +103,18 @@ for it in range(R.n(60, 600)):
             and wf.container.selection_shape == (f.tchans, 1, f.fchans), None)
     for q in (p,):
         os.unlink(q)
+# degenerate geometries (a single integration / a single channel), filterbank container only: blimpy's own HDF5 reader needs >= 3 x 3
+for gi, (T, nch, how) in enumerate([(1, 32, 'direct'), (8, 1, 'direct'), (8, 32, 'one-channel-slice'), (8, 32, 'spectrum'), (3, 3, 'direct')]):
+    for asc in (True, False):
+        c = dict(T=T, nch=nch, how=how, ascending=asc, fmt='fil')
+        base = stg.Frame(fchans=nch, tchans=T, df=2.79, dt=1.5, fch1=1420.0e6, ascending=asc, seed=77 + gi, t_start=1.6e9, source_name='DEG')
+        base.add_noise(5, 1, noise_type='gaussian')
+        f = base if how == 'direct' else (base.get_slice(5, 6) if how == 'one-channel-slice' else stg.integrate(base, axis='t', as_frame=True))
+        p = os.path.join(R.tmp, f'deg{gi}_{int(asc)}.fil')
+        g = R.guard('degenerate/save-load/no-exception', c, lambda: (f.save_fil(p), stg.Frame(p))[1])
+        if g is None:
+            continue
+        R.check('degenerate/round-trip', c, g.shape == f.shape and g.data.shape == f.data.shape and np.allclose(g.data, f.data.astype(np.float32), rtol=1e-6)
+                and np.allclose(g.fs, f.fs, rtol=0, atol=1e-2) and g.ascending == f.ascending, [list(g.shape), list(g.data.shape)], list(f.shape))
+        R.check('degenerate/helpers', c, wu.get_data(p).shape == f.shape and len(wu.get_fs(p)) == f.fchans and len(wu.get_ts(p)) == f.tchans, list(wu.get_data(p).shape), list(f.shape))
 R.finish()
